@@ -45,6 +45,7 @@ type St struct {
 	wfKnown bool
 	fresh   []*Term // references allocated on this path in this activation
 	dead    bool
+	yielded bool // closures: a value has been yielded on this path
 }
 
 func (s *St) clone() *St {
@@ -62,6 +63,7 @@ func (s *St) clone() *St {
 		n.defers[k] = append([]deferred(nil), v...)
 	}
 	n.fresh = append([]*Term(nil), s.fresh...)
+	n.yielded = s.yielded
 	return n
 }
 
